@@ -241,12 +241,12 @@ Section Buf.
     induction d as [|d IH]; intros p t Ht Hp.
     { cbn. discriminate. }
     rewrite rp_S. cbn [bskip]. rewrite (tts_ok SBinary t Ht). cbn [bind]. rewrite fixed_width_pos.
-    destruct (is_ty_ok t Ht) as (Hs&Hm&Hl&_&Hst&_). rewrite Hs, Hm, Hl, Hst.
+    destruct (is_ty_ok t Ht) as (Hs&Hm&Hl&_&Hst&_). rewrite Hs, Hm, Hl, Hst. clear Hs Hm Hl Hst.
     unfold lvl, is_fixed, is_str, is_map, is_list, is_struct, fixed_width.
     destruct (kind_of t) eqn:K; cbv beta iota.
     - (* fixed *)
       rewrite N2Z.id, hasn_le, len_drop_b. pose proof (kind_fixed_pos _ _ K).
-      destruct (N.ltb_spec e (p + width)); destruct (N.leb_spec width (e - p)); try lia; cbn;
+      destruct (N.ltb_spec e (p + width)); destruct (N.leb_spec width (e - p)); try slia; cbn;
         [discriminate|reflexivity].
     - apply skipstr_sim, Hp.
     - (* struct *)
@@ -255,24 +255,24 @@ Section Buf.
       specialize (L ltac:(intros ft q Hft Hq; apply bfield_wsim; [exact IH|exact Hft|exact Hq])
                     ltac:(intros ft; apply mem_good) ltac:(intros ft; apply mem_nocrash)
                     fu (S (length (drop p b))) 0).
-      rewrite N.add_0_r in L. specialize (L Hp (fuel_ok p Hp) ltac:(lia)).
+      rewrite N.add_0_r in L. specialize (L Hp (fuel_ok p Hp) ltac:(slia)).
       unfold simL in L. unfold sim.
       destruct (b_struct_loop _ b e p fu 0) as [i'|c| |]; try contradiction;
-        destruct (gfields _ _ (drop p b)) as [[n h]|er| |]; try contradiction; cbn [bind]; [lia|exact L].
+        destruct (gfields _ _ (drop p b)) as [[n h]|er| |]; try contradiction; cbn [bind]; [slia|exact L].
     - (* map *)
       set (F := S (length (drop p b))).
       assert (HF : forall k, (length (drop (p + k) b) < F)%nat)
-        by (intros k; subst F; unfold drop; rewrite !skipn_length; lia).
+        by (intros k; subst F; unfold drop; rewrite !skipn_length; slia).
       destruct (N.ltb_spec e (p + 6)) as [Hshort|Hlong].
       { destruct (drop p b) as [|kt [|vt r2]] eqn:D; try (cbn; discriminate).
         pose proof (len_drop_b p) as Ld. rewrite D, !len_cons in Ld.
-        rewrite hasn_le. destruct (N.leb_spec 4 (len r2)); [lia|cbn; discriminate]. }
-      destruct (drop_b_cons p ltac:(lia)) as [kt [D1 Hkt]].
-      destruct (drop_b_cons (p + 1) ltac:(lia)) as [vt [D2 Hvt]].
-      rewrite D1, D2. replace (p + 1 + 1) with (p + 2) by lia.
+        rewrite hasn_le. destruct (N.leb_spec 4 (len r2)); [slia|cbn; discriminate]. }
+      destruct (drop_b_cons p ltac:(slia)) as [kt [D1 Hkt]].
+      destruct (drop_b_cons (p + 1) ltac:(slia)) as [vt [D2 Hvt]].
+      rewrite D1, D2. replace (p + 1 + 1) with (p + 2) by slia.
       rewrite (ld8_ok b p kt _ D1), (ld8_ok b (p + 1) vt _ D2). cbn [bind].
       assert (H4 : hasn (drop (p + 2) b) 4 = true).
-      { rewrite hasn_le, len_drop_b. apply N.leb_le. lia. }
+      { rewrite hasn_le, len_drop_b. apply N.leb_le. slia. }
       rewrite H4, (ld32_ok b (p + 2) H4). cbn [bind]. cbv zeta.
       pose proof (unbe4_lt (drop (p + 2) b) (wf_drop (p + 2) b Hwf)) as Hu.
       set (u := unbe (take 4 (drop (p + 2) b))) in *.
@@ -280,7 +280,7 @@ Section Buf.
       destruct (N.leb_spec two31 u) as [Hneg|Hpos]; [cbn; discriminate|].
       rewrite i32_small by exact Hpos.
       rewrite (tts_ok SBinary kt Hkt), (tts_ok SBinary vt Hvt). cbn [bind].
-      rewrite !fixed_width_pos. rewrite drop_plus. replace (p + 2 + 4) with (p + 6) by lia.
+      rewrite !fixed_width_pos. rewrite drop_plus. replace (p + 2 + 4) with (p + 6) by slia.
       unfold rp_em, rp_m. cbn [inl_all in_map_fixed in_map_str]. rewrite Bool.orb_true_r.
       destruct (is_fixed kt && is_fixed vt) eqn:FF.
       + (* fast path *)
@@ -291,41 +291,41 @@ Section Buf.
         rewrite (gelems_ext _ _ (fixedp (kw + vw))).
         2:{ intros r. rewrite <- gpair_fixed. apply gpair_ext; apply member_fixed_ext; assumption. }
         pose proof (kind_fixed_pos _ _ Kk). pose proof (kind_fixed_pos _ _ Kv).
-        rewrite gelems_fixed; [|lia|apply HF].
+        rewrite gelems_fixed; [|slia|apply HF].
         rewrite <- N2Z.inj_add, <- N2Z.inj_mul, N2Z.id.
         rewrite hasn_le, len_drop_b.
         destruct (N.ltb_spec e (p + (6 + u * (kw + vw)))); destruct (N.leb_spec (u * (kw + vw)) (e - (p + 6)));
-          try lia; cbn; [discriminate|reflexivity].
+          try slia; cbn; [discriminate|reflexivity].
       + (* slow path *)
         rewrite N2Z.id.
         pose proof (map_loop_sim p
            (b_elem (fun q t' => bskip d b e fu q t') b e (Z.of_N (fixed_width kt)) kt)
            (b_elem (fun q t' => bskip d b e fu q t') b e (Z.of_N (fixed_width vt)) vt)
            (member true true (rp inl_all d) kt) (member true true (rp inl_all d) vt)) as L.
-        specialize (L ltac:(intros q Hq; apply belem_wsim; [exact IH|exact Hkt|lia])
-                      ltac:(intros q Hq; apply belem_wsim; [exact IH|exact Hvt|lia])
+        specialize (L ltac:(intros q Hq; apply belem_wsim; [exact IH|exact Hkt|slia])
+                      ltac:(intros q Hq; apply belem_wsim; [exact IH|exact Hvt|slia])
                       (mem_good d kt) (mem_good d vt) (mem_nocrash d kt) (mem_nocrash d vt)
                       fu F u 6).
-        specialize (L ltac:(lia) (fuel_ok (p + 6) ltac:(lia)) (HF 6)).
+        specialize (L ltac:(slia) (fuel_ok (p + 6) ltac:(slia)) (HF 6)).
         unfold wsimL in L. unfold sim.
         destruct (b_map_loop _ _ e p fu u 6) as [i'|c| |]; try contradiction;
           destruct (gelems _ _ u (drop (p + 6) b)) as [[n h]|er| |] eqn:EG; try contradiction; cbn [bind].
         * apply gelems_bound in EG; [|apply gpair_good; apply mem_good]. rewrite len_drop_b in EG.
-          destruct (N.ltb_spec e (p + i')); [lia|]. lia.
-        * destruct (N.ltb_spec e (p + i')); [discriminate|lia].
+          destruct (N.ltb_spec e (p + i')); [slia|]. slia.
+        * destruct (N.ltb_spec e (p + i')); [discriminate|slia].
         * exact L.
     - (* list / set *)
       set (F := S (length (drop p b))).
       assert (HF : forall k, (length (drop (p + k) b) < F)%nat)
-        by (intros k; subst F; unfold drop; rewrite !skipn_length; lia).
+        by (intros k; subst F; unfold drop; rewrite !skipn_length; slia).
       destruct (N.ltb_spec e (p + 5)) as [Hshort|Hlong].
       { destruct (drop p b) as [|et r1] eqn:D; try (cbn; discriminate).
         pose proof (len_drop_b p) as Ld. rewrite D, !len_cons in Ld.
-        rewrite hasn_le. destruct (N.leb_spec 4 (len r1)); [lia|cbn; discriminate]. }
-      destruct (drop_b_cons p ltac:(lia)) as [et [D1 Het]].
+        rewrite hasn_le. destruct (N.leb_spec 4 (len r1)); [slia|cbn; discriminate]. }
+      destruct (drop_b_cons p ltac:(slia)) as [et [D1 Het]].
       rewrite D1. rewrite (ld8_ok b p et _ D1). cbn [bind].
       assert (H4 : hasn (drop (p + 1) b) 4 = true).
-      { rewrite hasn_le, len_drop_b. apply N.leb_le. lia. }
+      { rewrite hasn_le, len_drop_b. apply N.leb_le. slia. }
       rewrite H4, (ld32_ok b (p + 1) H4). cbn [bind]. cbv zeta.
       pose proof (unbe4_lt (drop (p + 1) b) (wf_drop (p + 1) b Hwf)) as Hu.
       set (u := unbe (take 4 (drop (p + 1) b))) in *.
@@ -333,30 +333,30 @@ Section Buf.
       destruct (N.leb_spec two31 u) as [Hneg|Hpos]; [cbn; discriminate|].
       rewrite i32_small by exact Hpos.
       rewrite (tts_ok SBinary et Het). cbn [bind].
-      rewrite !fixed_width_pos. rewrite drop_plus. replace (p + 1 + 4) with (p + 5) by lia.
+      rewrite !fixed_width_pos. rewrite drop_plus. replace (p + 1 + 4) with (p + 5) by slia.
       unfold rp_el. cbn [inl_all in_list_str].
       destruct (is_fixed et) eqn:Fe.
       + unfold is_fixed in Fe. destruct (kind_of et) as [w| | | | |] eqn:Ke; try discriminate.
         unfold fixed_width. rewrite Ke.
         rewrite (gelems_ext _ _ (fixedp w)) by (apply member_fixed_ext; assumption).
         pose proof (kind_fixed_pos _ _ Ke).
-        rewrite gelems_fixed; [|lia|apply HF].
+        rewrite gelems_fixed; [|slia|apply HF].
         rewrite <- N2Z.inj_mul, N2Z.id.
         rewrite hasn_le, len_drop_b.
         destruct (N.ltb_spec e (p + (5 + u * w))); destruct (N.leb_spec (u * w) (e - (p + 5)));
-          try lia; cbn; [discriminate|reflexivity].
+          try slia; cbn; [discriminate|reflexivity].
       + rewrite N2Z.id.
         pose proof (list_loop_sim p
            (b_elem (fun q t' => bskip d b e fu q t') b e (Z.of_N (fixed_width et)) et)
            (member true true (rp inl_all d) et)) as L.
-        specialize (L ltac:(intros q Hq; apply belem_sim; [exact IH|exact Het|lia|exact Fe])
+        specialize (L ltac:(intros q Hq; apply belem_sim; [exact IH|exact Het|slia|exact Fe])
                       (mem_good d et) (mem_nocrash d et)
                       fu F u 5).
-        specialize (L ltac:(lia) (fuel_ok (p + 5) ltac:(lia)) (HF 5)).
+        specialize (L ltac:(slia) (fuel_ok (p + 5) ltac:(slia)) (HF 5)).
         unfold simL in L. unfold sim.
         destruct (b_list_loop _ e p fu u 5) as [i'|c| |]; try contradiction;
           destruct (gelems _ _ u (drop (p + 5) b)) as [[n h]|er| |]; try contradiction; cbn [bind];
-          [lia|exact L].
+          [slia|exact L].
     - cbn. discriminate.
   Qed.
 End Buf.
